@@ -4,7 +4,11 @@
     in first and non-first position: theorem per program against Coro.ref extended with Wait (resume exactly n
     clocks after reached);
 (2) wrappers around the REAL delayed/DelayLine, continuous_counter, ClockDivider, ToggleSignal, debounce:
-    theorem per configuration against the specification machines of Models/StdSpecs.v;
+    theorem per configuration against the specification machines of Models/StdSpecs.v; for DelayLine/delayed,
+    continuous_counter, ClockDivider, ToggleSignal with constant numbers also against / tied to the AS-CODED models
+    of Models/TimingAll.v, about which Models/TimingAllProofs.v proves for ALL lengths / limits / periods that they
+    equal the specification machines and have the closed forms (exact delay, period, duty, restart) stated in
+    Props/C16_Properties.v;
 (3) Duration.count_periods on integral ratios (plain differential check, reported separately)."""
 from __future__ import annotations
 import common
@@ -224,6 +228,64 @@ def util_cases(tier):
     return out
 
 
+CODED_IMP = "From Cohdl Require Import Models.StdSpecs Models.Ring Models.TimingAll."
+
+
+def coded_model(ref, meta):
+    """as-coded model (Models/TimingAll.v) of a configuration whose specification machine is ref["step"]:
+    (Case arguments, statement + proof of 'as-coded model = specification machine on every input sequence',
+    instantiated from the all-sizes theorem of Models/TimingAllProofs.v), or None (run-time limits, debounce)"""
+    import re
+    st, init = ref["step"], ref["init"]
+    m = re.fullmatch(r"delay_step (\d+)%N", st)
+    if m:
+        w, n, i = m.group(1), meta["n"], meta["initial"]
+        return (dict(step=f"dline_step {w}%N", init=f"dline_init {n} {i}%Z"),
+                f"traceB (dline_step {w}%N) (dline_init {n} {i}%Z) ins = traceB ({st}) {init} ins",
+                f"apply (dline_refines_delay {n} {w}%N {i}%Z); lia")
+    m = re.fullmatch(r"counter_step (\d+)%N (\d+)%Z", st)
+    if m:
+        w, l = m.groups()
+        return (dict(step=f"ccounter_step {w}%N {l}%Z", init="[0%Z]"),
+                f"traceB (ccounter_step {w}%N {l}%Z) [0%Z] ins = traceB ({st}) {init} ins",
+                f"apply (ccounter_refines {w}%N {l}%Z); lia")
+    m = re.fullmatch(r"divider_step (\d+)%Z (true|false) (true|false)", st)
+    if m:
+        d, ds, tas = m.groups()
+        return (dict(step=f"dividerm_step {d}%Z {ds} {tas}", init=f"dividerm_init {d}%Z {ds} {tas}"),
+                f"traceB (dividerm_step {d}%Z {ds} {tas}) (dividerm_init {d}%Z {ds} {tas}) ins = traceB ({st}) {init} ins",
+                f"apply (dividerm_refines {d}%Z {ds} {tas}); lia")
+    m = re.fullmatch(r"toggle_step (\d+)%Z (\d+)%Z (true|false) (true|false)", st)
+    if m:
+        a, b, ds, fs = m.groups()
+        return (dict(step=f"togglem_step {a}%Z {b}%Z {ds} {fs}", init=f"togglem_init {ds}"),
+                f"traceB (togglem_step {a}%Z {b}%Z {ds} {fs}) (togglem_init {ds}) ins = traceB ({st}) {init} ins",
+                f"apply (togglem_refines {a}%Z {b}%Z {ds} {fs}); lia")
+    return None
+
+
+def coded_ties(ck, ties):
+    """one generated file: per configuration the kernel-checked instance 'as-coded model = specification machine
+    of the existing case theorem, on ALL input sequences' (with that case theorem: emitted VHDL = as-coded model)"""
+    import os
+    path = os.path.join(ck.gen, "coded_ties.v")
+    with open(path, "w") as f:
+        f.write(common.COQ_HEADER + "From Coq Require Import Lia.\nFrom Cohdl Require Import Equiv.RefTS Models.StdSpecs Models.Ring "
+                "Models.TimingAll Models.TimingAllProofs.\nLocal Open Scope Z_scope.\n")
+        for name, stmt, proof in ties:
+            f.write(f"Theorem tie_{name} : forall ins, {stmt}.\nProof. intros ins. {proof}. Qed.\n")
+    rc, out, err = common.coqc(path, 1200)
+    ok = rc == 0
+    ck.obligation(ok, len(ties))
+    ck.evaluations += len(ties)
+    if ok:
+        common._cleanup_v(path)
+    else:
+        ck.violation({"tie": "as-coded timing models"}, "instances of the all-sizes refinement theorems (Models/TimingAllProofs.v) "
+                     "for the checked configurations no longer prove", {"file": path, "log": (out + err)[-1500:]}, no_input=True)
+    ck.cov["as_coded_model_ties"] = len(ties)
+
+
 def run(ck: common.Check, replay=None):
     ck.check_props("C16_Properties.v")
     # (1) wait_for through the coroutine reference semantics
@@ -259,6 +321,8 @@ def run(ck: common.Check, replay=None):
     designs = [{"name": n, "source": src, "entity": "W"} for n, src, _, _ in uc]
     res = X.compile_designs(ck, designs)
     cases = []
+    coded_cases = []
+    ties = []
     for (n, src, ref, meta), r in zip(uc, res):
         if not r["ok"]:
             ck.obligation(False)
@@ -267,8 +331,40 @@ def run(ck: common.Check, replay=None):
             continue
         cases.append(X.Case(n, r["vhdl"], imports=IMP, meta=dict(meta, source=src), **ref))
         ck.hist("utilities", meta["util"])
-    X.run_cases(ck, cases, "compiled utility and its specification machine differ on an input sequence",
-                key_of=lambda c: {k: v for k, v in c.meta.items() if k != "source"})
+        cm = coded_model(ref, meta)
+        if cm is not None:
+            cref, stmt, proof = cm
+            ties.append((n, stmt, proof))
+            # direct second theorem 'emitted VHDL = as-coded model' by exploration: every such configuration in the
+            # thorough tier, the delay lines and counters in the quick tier (wall time); the others are covered
+            # by their tie instance + the case theorem against the specification machine
+            if ck.tier != "quick" or meta["util"] in ("DelayLine", "continuous_counter") or meta["util"].startswith("delayed"):
+                coded_cases.append(X.Case(n + "_coded", r["vhdl"], imports=CODED_IMP,
+                                          meta=dict(meta, reference="as-coded model (Models/TimingAll.v)", source=src), **cref))
+    # a difference between the VHDL and an as-coded model while the specification-machine theorem of the same
+    # configuration holds is not a violation of the property: the model is out of date
+    failed = set()
+    orig_violation2 = ck.violation
+
+    def violation2(key, what, replay, no_input=False):
+        base = tuple(sorted((k, str(v)) for k, v in key.items() if k != "reference"))
+        if "reference" in key:
+            what = "emitted VHDL and the as-coded model (Models/TimingAll.v) differ: " + what
+            if base not in failed:
+                what += " [the specification-machine theorem of this configuration holds: the model is out of date]"
+                no_input = True
+        else:
+            failed.add(base)
+        return orig_violation2(key, what, replay, no_input)
+    ck.violation = violation2
+    try:
+        X.run_cases(ck, cases + coded_cases, "compiled utility and its reference machine differ on an input sequence",
+                    key_of=lambda c: {k: v for k, v in c.meta.items() if k != "source"})
+    finally:
+        ck.violation = orig_violation2
+    ck.cov["as_coded_model_cases"] = len(coded_cases)
+    if ties:
+        coded_ties(ck, ties)
     # (3) Duration.count_periods
     r = common.run_worker("c16_worker.py", {"seed": ck.seed, "n": 400 if ck.tier == "quick" else 5000})
     ck.cov["count_periods_differential"] = {"cases": r["cases"], "mismatches": len(r["bad"])}
